@@ -81,7 +81,8 @@ func c05Check(c *hist.Case, r *evid.Rec) []evid.Disc {
 						}
 						want[tag]++
 						if overwrites[topic] {
-							r.NonTrivial(fmt.Sprintf("%s|%s|%d|rh%d", f.Filter, topic, tag, rh))
+							r.NonTrivial(fmt.Sprintf("%s|%d|%s|%s|%d|rh%d", caseKey(c), s.I, f.Filter, topic, tag, rh))
+							r.Label("replay-after-overwrite-or-delete")
 						}
 					}
 				}
@@ -143,7 +144,7 @@ func c05Check(c *hist.Case, r *evid.Rec) []evid.Disc {
 }
 
 func TestC05(t *testing.T) {
-	r := evid.New("C05", "rapid: histories over 4 topics with retained / non-retained / empty-payload publishes interleaved with subscribe and re-subscribe (same filter, Retain Handling 0/1/2), shared filters, unsubscribe, reconnects; server retain available on/off; oracle: after each acknowledged SUBSCRIBE the retained PUBLISH packets received (by tag, retain flag set) equal the model's matching entries iff RH=0, or RH=1 and the subscription is new; none for RH=2, existing RH=1, shared filters or retain unavailable; non-trivial = a replayed topic that was overwritten or deleted earlier; distinct by (filter, topic, tag, RH)")
+	r := evid.New("C05", "rapid: histories over 4 topics with retained / non-retained / empty-payload publishes interleaved with subscribe and re-subscribe (same filter, Retain Handling 0/1/2), shared filters, unsubscribe, reconnects; server retain available on/off; oracle: after each acknowledged SUBSCRIBE the retained PUBLISH packets received (by tag, retain flag set) equal the model's matching entries iff RH=0, or RH=1 and the subscription is new; none for RH=2, existing RH=1, shared filters or retain unavailable; non-trivial = a replayed topic that was overwritten or deleted earlier; distinct by (history, step, filter, topic, tag, RH)")
 	defer r.Finish(t)
 	if evid.ReplayMode() {
 		evid.Replay(t, r, replayPath(), c05Check)
@@ -153,7 +154,9 @@ func TestC05(t *testing.T) {
 	g.Retain, g.EmptyPayload, g.MultiFilter = true, true, false
 	g.Topics = []string{"a", "a/b", "b", "$x/a"}
 	g.Filters = []string{"a", "a/b", "a/#", "#", "+", "a/+", "+/b", "+/#", "b", "$x/#", "$share/g/a", "$share/g/#", "$share/h/a/+"}
-	g.WSubscribe, g.WPublish, g.WUnsubscribe = 6, 6, 2
+	g.WSubscribe, g.WPublish, g.WUnsubscribe, g.WDisconnect, g.WDrop, g.WConnect = 6, 8, 2, 0, 1, 1
+	g.InitAll, g.RetainBias = true, 3
+	g.MinActions = 8
 	evid.Run(t, r, func(rt *rapid.T) *hist.Case {
 		c := g.Draw(rt)
 		c.Cfg.RetainUnavailable = rapid.IntRange(0, 4).Draw(rt, "unavailable") == 0
